@@ -36,8 +36,9 @@ var methods = map[string]bool{"Touch": true, "Trash": true, "WriteBlock": true, 
 var required = map[string][]string{
 	"Touch":      {"v.os.OpenFile", "v.lockfile", "os.Chtimes", "defer:v.unlockfile", "defer:f.Close"},
 	"Trash":      {"v.os.OpenFile", "v.lockfile", "v.os.Stat", "v.os.Rename", "v.os.Remove", "defer:v.unlockfile", "defer:f.Close"},
-	"WriteBlock": {"os.MkdirAll", "v.os.TempFile", "write:tmpfile", "tmpfile.Close", "os.Chtimes", "v.os.Rename", "v.os.Remove"},
-	"Untrash":    {"ioutil.ReadDir", "v.os.Rename"},
+	"WriteBlock": {"os.MkdirAll", "v.os.TempFile", "write:tmpfile", "tmpfile.Close", "os.Chtimes", "v.os.OpenFile", "v.lockfile",
+		"v.os.Rename", "defer:v.unlockfile", "defer:old.Close", "v.os.Remove"},
+	"Untrash": {"ioutil.ReadDir", "v.os.Stat", "v.os.Rename"},
 }
 
 var notFS = map[string]bool{"os.IsNotExist": true, "os.IsExist": true, "os.Getpid": true, "ioutil.NopCloser": true}
